@@ -385,7 +385,32 @@ func stringContents(c *engine.Ctx) {
 			})
 		}
 	}
-	c.Bound("string-contents", fmt.Sprintf("%d text attributes x (%d near-strings + %d values from the vocabulary of the library's sources: every word-like string literal as written / lower / upper / title case, structural literals embedded in filler; quick tier: these on the child only, spec versions alternating) x {root, child} x {1.4, 1.5}; the document serial number x the same strings", len(slots), nNear, len(ms)-nNear))
+	// long values: a single value of 70 000 bytes (beyond every 64 KiB line or token buffer) and of 1.1 MB, plain and
+	// made of characters that JSON writes as six-byte escapes
+	longs := map[string]string{"70000 x a": strings.Repeat("a", 70000), "12000 x <": strings.Repeat("<", 12000), "1100000 x ab": strings.Repeat("ab", 550000)}
+	for _, ln := range []string{"12000 x <", "70000 x a", "1100000 x ab"} {
+		for si := range slots {
+			for _, f := range versions {
+				si, ln, f := si, ln, f
+				c.Case(func() any {
+					return map[string]any{"attribute": slots[si].Name, "value": ln, "node": 1, "format": string(f)}
+				}, func(t *engine.T) *engine.Violation {
+					nl := two()
+					slots[si].Set(nl.Nodes[1], longs[ln])
+					if v := RoundTrip(t, docOf(nl), f); v != nil {
+						if len(v.Detail) > 1500 {
+							v.Detail = v.Detail[:1500] + "…"
+						}
+						return v
+					}
+					t.State(fmt.Sprint("long:", slots[si].Name, ln, f))
+					t.Outcome("string-ok")
+					return nil
+				})
+			}
+		}
+	}
+	c.Bound("string-contents", fmt.Sprintf("%d text attributes x (%d near-strings + %d values from the vocabulary of the library's sources: every word-like string literal as written / lower / upper / title case, structural literals embedded in filler; quick tier: these on the child only, spec versions alternating) x {root, child} x {1.4, 1.5}; the document serial number x the same strings; every attribute with one value of 70 000 bytes, of 12 000 escaped characters and of 1.1 MB", len(slots), nNear, len(ms)-nNear))
 	for si := range slots {
 		for mi := range ms {
 			for who := 0; who < 2; who++ {
